@@ -8,6 +8,7 @@ import (
 	"errors"
 	"fmt"
 	"math"
+	"sort"
 	"strings"
 	"time"
 	_ "time/tzdata" // LoadLocation works without system zoneinfo
@@ -339,6 +340,16 @@ type ptrStringer struct{ s string }
 
 func (s *ptrStringer) String() string { return s.s } // panics on nil receiver
 
+// nilSafeStringer's String is meaningful on a nil receiver: the value itself must be asked, nil or not.
+type nilSafeStringer struct{ s string }
+
+func (s *nilSafeStringer) String() string {
+	if s == nil {
+		return "nil-safe default"
+	}
+	return s.s
+}
+
 type panicStringer struct{ s string }
 
 func (s panicStringer) String() string { panic(s.s) }
@@ -364,6 +375,9 @@ func (s strSpec) build() fmt.Stringer {
 		return p
 	case "panic":
 		return panicStringer{s.S}
+	case "nilsafe":
+		var p *nilSafeStringer // a nil pointer whose String method copes with a nil receiver (like *time.Location)
+		return p
 	case "slice":
 		return sliceStringer{s.S, "x"}
 	case "detail":
@@ -379,6 +393,8 @@ func (s strSpec) want() (val string, errText string) {
 		return s.S, ""
 	case "nilptr":
 		return "<nil>", ""
+	case "nilsafe":
+		return "nil-safe default", ""
 	case "slice":
 		return s.S + "|x", ""
 	}
@@ -386,7 +402,7 @@ func (s strSpec) want() (val string, errText string) {
 }
 
 func genStrSpec(t *rapid.T, faults bool) strSpec {
-	kinds := []string{"ok", "ptr", "slice", "detail"}
+	kinds := []string{"ok", "ptr", "slice", "detail", "nilsafe"}
 	if faults {
 		kinds = append(kinds, "nilptr", "panic")
 	}
@@ -405,10 +421,31 @@ type reflStruct struct {
 
 // genReflect returns a value for zap.Reflect and whether encoding/json can
 // encode it.
+// reflNilSet / reflCSV: named collection types whose value-receiver marshalers give a nil value a non-null form.
+type reflNilSet map[string]bool
+
+func (s reflNilSet) MarshalJSON() ([]byte, error) {
+	keys := make([]string, 0, len(s))
+	for k := range s {
+		keys = append(keys, k)
+	}
+	sort.Strings(keys)
+	return json.Marshal(keys)
+}
+
+type reflCSV []string
+
+func (c reflCSV) MarshalText() ([]byte, error) { return []byte(strings.Join(c, ",")), nil }
+
 func genReflect(t *rapid.T, faults bool) (v any, label string) {
 	if rapid.IntRange(0, 24).Draw(t, "bigReflected") == 0 {
 		// a reflected value whose encoding is far larger than any pooled scratch buffer starts with
 		return map[string]any{"big": strings.Repeat("0123456789abcdef", rapid.SampledFrom([]int{70, 1100, 4200}).Draw(t, "bigLen")), "n": 1}, "bigmap"
+	}
+	if rapid.IntRange(0, 11).Draw(t, "typedNilReflected") == 0 {
+		// typed nils: encoding/json prints null for most, but CALLS the value-receiver marshaler of a named
+		// map/slice type even when the value is nil (a nil set is an empty list, not null)
+		return []any{reflNilSet(nil), reflCSV(nil), (*reflStruct)(nil), map[string]int(nil), []string(nil), reflNilSet{"a": true}, (*int)(nil)}[rapid.IntRange(0, 6).Draw(t, "typedNil")], "typed nil"
 	}
 	n := 9
 	if faults {
